@@ -343,6 +343,15 @@ class Interp:
                 return r
         return r
 
+    def _place_ty(self, frame, pl):
+        ty = frame.f["locals"][pl["l"]]["ty"]
+        for e in pl["p"]:
+            if isinstance(e, dict) and "f" in e:
+                ty = e.get("ty") or ""
+            elif e == "*":
+                ty = ty.lstrip("&").replace("mut ", "", 1) if ty.startswith("&") else ty
+        return ty.lstrip("&").strip()
+
     def _place_adt(self, frame, pl):
         for e in reversed(pl["p"]):
             if isinstance(e, dict) and "f" in e:
@@ -465,6 +474,10 @@ class Interp:
             if isinstance(v, Adt) and v.path == "core::result::Result":
                 return 0 if v.variant == "Ok" else 1
             if isinstance(v, Sym):
+                pty = self._place_ty(frame, rv["pl"])
+                if pty.startswith(("std::option::Option<", "core::option::Option<")) and v.adt != "core::option::Option!inner":
+                    r = self._norm_ref(frame, rv["pl"])
+                    return DiscrOf(self._cell_of(r), "core::option::Option", v)
                 adt = v.adt or self._place_adt(frame, rv["pl"])
                 if adt in self.fx.adts and self.fx.adts[adt]["kind"] == "enum":
                     r = self._norm_ref(frame, rv["pl"])
@@ -544,6 +557,29 @@ class Interp:
                         if val == v:
                             tgt = b
                     fr.bb, fr.si = tgt, 0
+                elif isinstance(v, DiscrOf) and v.adt == "core::option::Option":
+                    alts = []
+                    for val, b in t["targets"]:
+                        alts.append(("Some" if val == 1 else "None", b))
+                    named = {a for a, _ in alts}
+                    rest = [x for x in ("None", "Some") if x not in named]
+                    if rest and not (fr.f["blocks"][t["otherwise"]]["term"]["k"] == "unreachable" and not fr.f["blocks"][t["otherwise"]]["stmts"]):
+                        for x in rest:
+                            alts.append((x, t["otherwise"]))
+                    states = [p] + [copy.deepcopy(p) for _ in alts[1:]]
+                    for (choice, b), q in zip(alts, states):
+                        qfr = q.frames[-1]
+                        dv = self.operand(qfr, t["discr"]) if q is not p else v
+                        if choice == "Some":
+                            inner = Sym(dv.sym.name, adt=dv.sym.adt)
+                            inner.attrs = dv.sym.attrs
+                            self.write_ref(dv.ref, Adt("core::option::Option", "Some", {"0": inner}))
+                        else:
+                            self.write_ref(dv.ref, Adt("core::option::Option", "None", {}))
+                        q.conds.append((dv.sym.name, choice, fr.f["key"], fr.bb))
+                        qfr.bb, qfr.si = b, 0
+                        if q is not p:
+                            work.append(q)
                 elif isinstance(v, DiscrOf):
                     names = [x["name"] for x in self.fx.adts[v.adt]["variants"]]
                     named = [names[val] for val, b in t["targets"] if val < len(names)]
@@ -921,6 +957,9 @@ def std_model(I, p, fr, t, args):
                 if n in ("position", "find"):
                     return Adt("core::option::Option", "None", {})
                 return Iter(keep)
+    if n in ("map", "filter", "cloned", "copied", "rev", "enumerate", "filter_map", "peekable") and isinstance(d0, Iter) and d0.items is None \
+            and (t.get("callee_trait") == "core::iter::traits::iterator::Iterator" or c.startswith("core::iter::")):
+        return Iter(None, sym=d0.sym)
     if n == "collect" and isinstance(d0, Iter) and d0.items is not None:
         dty = fr.f["locals"][t["dest"]["l"]]["ty"]
         if dty.startswith("std::vec::Vec"):
